@@ -1316,7 +1316,8 @@ class Crystal(object):
         lis = []
         zero = np.zeros(self.dim, dtype=int)
         for u in (self.g_vect(g, zero, uvec)[1] for g in self.G):
-            if not np.any([self.__isclose__(u, u1) for u1 in lis]):
+            # equal positions may differ by a lattice vector (an image that falls on a cell face is wrapped either way)
+            if not np.any([self.__iszero__(inhalf(u - u1)) for u1 in lis]):
                 lis.append(u)
         return lis
 
